@@ -3530,7 +3530,7 @@ LEAN_OBLIGATIONS.update({
 LAYOUT_OBL = ["Tumfl.Props.C08_remove_separators", "Tumfl.Props.C08_add_spacing", "Tumfl.Props.C08_remove_orphaned", "Tumfl.Props.C08_resolve_tokens",
               "Tumfl.Props.C08_join", "Tumfl.Props.C08_indent_brackets", "Tumfl.Props.C08_string_wrap", "Tumfl.Props.C08_wrap_progress", "Tumfl.Props.C02_boundary",
               "Tumfl.Props.C08_comment_wf", "Tumfl.Props.C08_comment_text"]
-PIECE_OBL = ["Tumfl.Props.C08_format_tree", "Tumfl.Props.C01_default_style", "Tumfl.Props.C02_minified_style", "Tumfl.Inst.defaultStyle_repr_ok", "Tumfl.Inst.minifiedStyle_repr_ok", "Tumfl.Props.C01_same_program", "Tumfl.Props.C02_same_program_final", "Tumfl.Props.C01_same_program_emit", "Tumfl.Props.EmitI_eq_emit_parsed", "Tumfl.Props.C02_same_program", "Tumfl.Props.C02_same_program_nocomments", "Tumfl.Props.Format_lex", "Tumfl.Props.Format_lex_exact", "Tumfl.Props.Format_comments",
+PIECE_OBL = ["Tumfl.Props.C01_format_parse", "Tumfl.Props.C08_format_total", "Tumfl.Props.C08_format_total_parsed", "Tumfl.Props.C08_format_tree", "Tumfl.Props.C01_default_style", "Tumfl.Props.C02_minified_style", "Tumfl.Inst.defaultStyle_repr_ok", "Tumfl.Inst.minifiedStyle_repr_ok", "Tumfl.Props.C01_same_program", "Tumfl.Props.C02_same_program_final", "Tumfl.Props.C01_same_program_emit", "Tumfl.Props.EmitI_eq_emit_parsed", "Tumfl.Props.C02_same_program", "Tumfl.Props.C02_same_program_nocomments", "Tumfl.Props.Format_lex", "Tumfl.Props.Format_lex_exact", "Tumfl.Props.Format_comments",
              "Tumfl.Props.Parse_numsCanon", "Tumfl.Props.Format_cex_semicolon", "Tumfl.Props.Format_cex_trailing_comma", "Tumfl.Props.Same_program", "Tumfl.Props.Same_tokens", "Tumfl.Props.Same_normS_eq", "Tumfl.Props.Same_normS_strength", "Tumfl.Props.Parse_printable", "Tumfl.Props.C10_parse_sound", "Tumfl.Props.C03_parse_complete", "Tumfl.Props.Print_sim", "Tumfl.Props.Print_sim_parseToks", "Tumfl.Props.Print_readings", "Tumfl.Props.C11_roundtrip", "Tumfl.Props.C11_emit_is_par", "Tumfl.Props.C11_emit_roundtrip", "Tumfl.Props.C11_minified", "Tumfl.Inst.brackets_sound_all",
              "Tumfl.Props.C06_quoted", "Tumfl.Props.C06_long", "Tumfl.Props.C06_forms", "Tumfl.Props.C06_wrapped", "Tumfl.Props.C07_partial", "Tumfl.Props.C13_emit_on"]
 FORMAT_MODULES = ["Tumfl.Props.Final", "Tumfl.Props.Format", "Tumfl.Props.Same", "Tumfl.Props.Parse", "Tumfl.Props.Print", "Tumfl.Props.C08", "Tumfl.Props.C11", "Tumfl.Props.C06", "Tumfl.Props.C07", "Tumfl.Props.C13"]
@@ -3538,8 +3538,8 @@ FORMAT_PARTIAL = ["proved end to end on the models, for EVERY style with separat
                   "without carriage returns and format returns a text, that text is a valid Lua chunk whose reference tree equals the source's after normS - parentheses erased, empty "
                   "statements dropped, numerals canonical (C01_same_program; the only other hypothesis: comments off, or no comment with a blank directly before an inner line break). "
                   "The statement is about the models (parseText, formatI); their agreement with parser.py / formatter.py is the T2 correspondence (every stage, every run), not a proof",
-                  "not proved: termination of format for every style (the model's passes are total functions; `format = .ok` is a hypothesis), idempotence of minifying (C15: byte "
-                  "comparison in the oracle stream), and everything normS erases: K1 (truncating parentheses), K2/K3 (numeral kinds) are known findings"]
+                  "format never raises and always returns, for every style record and every printable tree (C08_format_total) - so C01_format_parse has no hypothesis about format",
+                  "not covered: everything normS erases - K1 (truncating parentheses), K2/K3 (numeral kinds) are known findings; K5 for comments"]
 for _p, _extra in (("C01", []), ("C02", []), ("C08", []), ("C15", [])):
     LEAN_OBLIGATIONS[_p] = dict(
         modules=FORMAT_MODULES,
@@ -3603,7 +3603,7 @@ for _pid, _ov in LEAN_OBLIGATIONS.items():
     REGISTRY[_pid].update(_ov)
 # C15: the idempotence theorem (Props/C15.lean)
 REGISTRY["C15"]["modules"] = list(dict.fromkeys(["Tumfl.Props.C15"] + REGISTRY["C15"]["modules"]))
-REGISTRY["C15"]["obligations"] = list(dict.fromkeys(["Tumfl.Props.C15_idempotent", "Tumfl.Props.C15_idempotent_general", "Tumfl.Inst.minifiedStyle_repr_ok"] + REGISTRY["C15"]["obligations"]))
+REGISTRY["C15"]["obligations"] = list(dict.fromkeys(["Tumfl.Props.C15_idempotent_total", "Tumfl.Props.C15_idempotent", "Tumfl.Props.C15_idempotent_general", "Tumfl.Inst.minifiedStyle_repr_ok"] + REGISTRY["C15"]["obligations"]))
 REGISTRY["C15"]["partial_hypotheses"] = ["proved on the models: for every CR-free source that parse accepts, minify(parse(minify(parse(src)))) = minify(parse(src)) byte for byte, and the "
                                          "intermediate parse succeeds (C15_idempotent for MinifiedStyle as extracted from formatter.py; C15_idempotent_general for every comment-free, "
                                          "separator-removing style with line width 0). The statement is about the models parseText / formatI; their agreement with the Python code is the "
